@@ -234,6 +234,7 @@ type C20Case struct {
 	Updates  []WLayer `json:"updates,omitempty"`
 	Blocking []bool   `json:"blocking,omitempty"`
 	ErrAt    int      `json:"err_at"` // before which update the inner source reports an error (-1 never)
+	ByPtr    bool     `json:"by_ptr,omitempty"` // the inner source hands out POINTERS to values of the type it was given (as sourcewrap.Blank does)
 }
 
 func genWLayer(t *rapid.T, n int) WLayer {
@@ -281,6 +282,7 @@ func genC20(t *rapid.T) C20Case {
 	c := C20Case{Chain: rapid.IntRange(0, 8).Draw(t, "chain"), ErrAt: -1}
 	c.Inner = rapid.SampledFrom([]string{"static", "watching", "watching", "watching", "value-error", "watch-error"}).Draw(t, "inner")
 	c.Initial = genWLayer(t, 0)
+	c.ByPtr = rapid.IntRange(0, 3).Draw(t, "by_ptr") == 0
 	if c.Inner == "watching" {
 		n := rapid.IntRange(0, 8).Draw(t, "updates")
 		for i := 0; i < n; i++ {
@@ -303,6 +305,7 @@ var errInner = errors.New("inner source failed")
 // translatingInner is the wrapped source: it produces values of whatever
 // (translated) type it is asked for.
 type translatingInner struct {
+	byPtr    bool
 	l        WLayer
 	valueErr error
 	watchErr error
@@ -318,6 +321,9 @@ func (s *translatingInner) Value(_ context.Context, t *dials.Type) (reflect.Valu
 	v := reflect.New(t.Type()).Elem()
 	if err := fillTranslated(v, "", s.l); err != nil {
 		return reflect.Value{}, err
+	}
+	if s.byPtr {
+		return v.Addr(), nil
 	}
 	return v, nil
 }
@@ -339,7 +345,7 @@ func wNative(pt reflect.Type, l WLayer) reflect.Value {
 
 func runC20(c C20Case) (verdict vrt.Verdict) {
 	chain, chainName := manglerChain(c.Chain)
-	labels := []string{"chain=" + chainName, "inner=" + c.Inner, fmt.Sprintf("updates=%d", len(c.Updates))}
+	labels := []string{"chain=" + chainName, "inner=" + c.Inner, fmt.Sprintf("updates=%d", len(c.Updates)), fmt.Sprintf("by_ptr=%v", c.ByPtr)}
 	var msg string
 	fail := func(format string, a ...any) {
 		if msg == "" {
@@ -373,11 +379,11 @@ func runC20(c C20Case) (verdict vrt.Verdict) {
 		var tw *translatingWatcher
 		switch c.Inner {
 		case "static":
-			inner = &translatingInner{l: c.Initial}
+			inner = &translatingInner{l: c.Initial, byPtr: c.ByPtr}
 		case "value-error":
 			inner = &translatingInner{l: c.Initial, valueErr: errInner}
 		case "watching":
-			tw = &translatingWatcher{translatingInner{l: c.Initial}}
+			tw = &translatingWatcher{translatingInner{l: c.Initial, byPtr: c.ByPtr}}
 			inner = tw
 		case "watch-error":
 			tw = &translatingWatcher{translatingInner{l: c.Initial, watchErr: errInner}}
@@ -459,6 +465,9 @@ func runC20(c C20Case) (verdict vrt.Verdict) {
 				return
 			}
 			nv := wNative(plain.Type.Type(), u)
+			if c.ByPtr {
+				tv = tv.Addr()
+			}
 			var e1, e2 error
 			if c.Blocking[i] {
 				e1 = tw.args.BlockingReportNewValue(ctx, tv)
